@@ -65,19 +65,32 @@ def general_mirrors(sym, shape, opts, focus, main_variant, float_timestamp):
         sym.check("repository", p.get(g, "repository") == repo)
 
 
+PATH_OPTIONS = [["packages", "repository"], ["source_packages", "source_repository"], ["repository"], [], ["packages", "source_repository"],
+                ["source_packages", "repository"], ["source_repository"], ["source_packages"]]
+
+
 def jobs(tier, seed):
     big = tier == "thorough"
     out = []
     for si, shape in enumerate(C04.SHAPES):
         tops = sorted(u for i, u, par, t in C04.SHAPES[shape] if par is None)
-        for k in (range(12) if big else [(seed + si) % 12, (seed + si + 3) % 12, (seed + si + 7) % 12]):
-            o = C04._opts(shape, k)
-            # make the packages/repository/source fall-backs reachable
-            for u in tops:
-                o["paths"][u] = [["packages", "repository"], ["source_packages", "source_repository"], ["repository"], [], ["packages", "source_repository"]][(k + len(u)) % 5]
-            mv = [None] + tops
-            out.append({"harness": "general_mirrors", "params": {"shape": shape, "opts": o, "focus": C04._focus(shape, o, k), "main_variant": mv[k % len(mv)],
-                                                               "float_timestamp": [None, None, 1400000000.75, None, -2.5][k % 5]}})
+        mvs = [None] + tops
+        n = 0
+        for arch in ("x86_64", "src"):
+            for pi, popt in enumerate(PATH_OPTIONS):
+                for mv in (mvs if big else [mvs[(pi + si + seed) % len(mvs)]] + ([None] if pi % 4 == 0 and len(tops) > 1 else [])):
+                    k = (seed + si * 5 + pi * 3 + n) % 12
+                    n += 1
+                    o = C04._opts(shape, k)
+                    o["arch"] = arch
+                    if arch in o["images"] or not o["images"]:
+                        pass
+                    else:
+                        o["images"] = {}
+                    for u in tops:
+                        o["paths"][u] = list(popt)
+                    out.append({"harness": "general_mirrors", "params": {"shape": shape, "opts": o, "focus": C04._focus(shape, o, k), "main_variant": mv,
+                                                                       "float_timestamp": [None, None, 1400000000.75, None, -2.5][k % 5]}})
     return out
 
 
